@@ -66,6 +66,14 @@ namespace sim
         static constexpr std::size_t npos = std::size_t(-1);
         void release(int owner, void* p, std::size_t size, std::size_t align, bool check_lifo);
         // counts an upstream call that carries no memory of its own (mprotect-commit); false if the fault strikes
+        void set_exhausted(bool e)
+        {
+            exhausted_ = e;
+        }
+        bool exhausted() const
+        {
+            return exhausted_;
+        }
         bool request_fault_only()
         {
             if (armed_ && !suspended_)
@@ -188,6 +196,7 @@ namespace sim
         bool      hint_after_;
 
         bool        armed_, suspended_, fault_fired_;
+        bool        exhausted_ = false; // every request fails until somebody (a new_handler) clears it
         int         fail_at_;
         unsigned    op_calls_, op_releases_;
         std::string pending_;
